@@ -1,4 +1,6 @@
 //! vh: harness that drives the real ipc-channel crate for the correspondence check.
+#[cfg(feature = "async")]
+mod asyncd;
 mod codec;
 mod conc;
 mod crash;
@@ -6,6 +8,7 @@ mod frag;
 mod nullser;
 mod prog;
 mod res;
+mod routerd;
 mod rset;
 mod script;
 mod shm;
@@ -27,6 +30,9 @@ fn main() {
         "codec" => codec::run(),
         "prog" => prog::run(),
         "res" => res::run(),
+        #[cfg(feature = "async")]
+        "async" => asyncd::run(),
+        "router" => routerd::run(),
         "rset" => rset::run(),
         "script" => script::run(),
         "vanish" => vanish::run(),
